@@ -273,3 +273,89 @@ def replay(path):
         return 2
     print(json.dumps(v.get('detail'), indent=1)[:4000])
     return 0
+
+
+def run_miri(vh_args, out_path, miriflags='', timeout=3000):
+    """Run one harness workload under the Miri interpreter (nightly toolchain, offline).
+    Returns (status, summary, report_text): status in ok | ub | inconclusive."""
+    d = hdir()
+    env = cargo_env()
+    env['MIRIFLAGS'] = ('-Zmiri-disable-isolation ' + miriflags).strip()
+    env['CARGO_TARGET_DIR'] = os.path.join(d, 'target-miri')
+    cmd = ['cargo', '+nightly', 'miri', 'run', '-q', '--'] + [str(a) for a in vh_args] + ['--out', out_path]
+    try:
+        p = subprocess.run(cmd, cwd=d, env=env, stdout=subprocess.PIPE, stderr=subprocess.PIPE, timeout=timeout)
+    except subprocess.TimeoutExpired:
+        return ('inconclusive', None, 'miri watchdog timeout')
+    err = p.stderr.decode('utf-8', 'replace')
+    summ = None
+    if os.path.exists(out_path):
+        try:
+            summ = json.load(open(out_path))
+        except Exception:
+            summ = None
+    if 'Undefined Behavior' in err or 'Data race detected' in err or 'error: unsupported operation' in err and 'can\'t call foreign function' not in err:
+        lines = [l for l in err.splitlines() if l.startswith('error')]
+        return ('ub', summ, (lines[0] if lines else err[-400:]) + '\n' + err[-1500:])
+    if p.returncode != 0 or summ is None:
+        return ('inconclusive', summ, err[-600:])
+    return ('ok', summ, '')
+
+
+def miri_leg(m, pid, what, seeds, miriflags=''):
+    """Run `vh miri --what <what>` for each seed in parallel; keep violations that belong to `pid`."""
+    rundir = os.path.join(VERIF, 'runs', f'miri-{pid}-{what}')
+    os.makedirs(rundir, exist_ok=True)
+    # build once so the parallel runs do not all compile
+    st, _, rep = run_miri(['miri', '--what', 'none'], os.path.join(rundir, 'warmup.json'))
+    if st == 'inconclusive':
+        m.inconclusive.append(f'miri leg could not build/run: {rep[-300:]}')
+        return
+    with cf.ThreadPoolExecutor(max_workers=min(NCPU, len(seeds))) as ex:
+        futs = {s: ex.submit(run_miri, ['miri', '--what', what, '--seed', s], os.path.join(rundir, f'{what}-{s}.json'), miriflags) for s in seeds}
+        for s, f in futs.items():
+            st, summ, rep = f.result()
+            m.coverage[f'miri.{what}.executions'] = m.coverage.get(f'miri.{what}.executions', 0) + 1
+            if st == 'ub':
+                first = rep.splitlines()[0][:120]
+                m.add_violation(f'{pid}:miri:{what}:{first}', f'Miri reported: {rep[:1200]}', {'cmd': 'miri', 'what': what, 'seed': s, 'miriflags': miriflags}, None)
+            elif st == 'inconclusive':
+                m.inconclusive.append(f'miri {what} seed {s}: {rep[-300:]}')
+            elif summ:
+                for k, v in summ.get('coverage', {}).items():
+                    m.coverage[k] = m.coverage.get(k, 0) + v
+                m.evaluations += summ.get('evaluations', 0)
+                for v in summ.get('violations', []):
+                    if v['sig'].startswith(pid + ':'):
+                        m.add_violation(v['sig'], v['what'] + ' (under Miri)', v.get('replay'), None, v.get('count', 1))
+    m.coverage[f'miri.{what}.reports'] = sum(1 for k in m.violations if ':miri:' in k)
+
+
+def valgrind_leg(m, pid, vh_args, rundir, label, env_extra=None, wrap_supervisor=True, timeout=3000):
+    """Run one harness command under valgrind memcheck (instruments the vendored lz4 / zstd C code too)."""
+    os.makedirs(rundir, exist_ok=True)
+    out = os.path.join(rundir, f'valgrind-{label}.json')
+    env = dict(os.environ)
+    if env_extra:
+        env.update(env_extra)
+    cmd = (['valgrind', '-q', '--error-exitcode=99'] if wrap_supervisor else []) + [vh()] + [str(a) for a in vh_args] + ['--out', out]
+    try:
+        p = subprocess.run(cmd, env=env, stdout=subprocess.PIPE, stderr=subprocess.PIPE, timeout=timeout)
+    except subprocess.TimeoutExpired:
+        m.inconclusive.append(f'valgrind leg {label}: watchdog timeout')
+        return
+    err = p.stderr.decode('utf-8', 'replace')
+    m.coverage[f'valgrind.{label}.runs'] = m.coverage.get(f'valgrind.{label}.runs', 0) + 1
+    if p.returncode == 99 or 'Invalid read' in err or 'Invalid write' in err or 'uninitialised' in err:
+        lines = [l for l in err.splitlines() if 'Invalid' in l or 'uninitialised' in l]
+        first = (lines[0].split('== ')[-1] if lines else 'exit 99')[:100]
+        m.add_violation(f'{pid}:valgrind:{first}', f'memcheck reported: {err[:1500]}', {'cmd': vh_args[0], 'args': [str(a) for a in vh_args[1:]], 'tool': 'valgrind'}, None)
+        return
+    if p.returncode != 0 or not os.path.exists(out):
+        m.inconclusive.append(f'valgrind leg {label} exited {p.returncode}: {err[-300:]}')
+        return
+    summ = json.load(open(out))
+    m.coverage[f'valgrind.{label}.executions'] = m.coverage.get(f'valgrind.{label}.executions', 0) + summ.get('evaluations', 0)
+    for v in summ.get('violations', []):
+        if v['sig'].startswith(pid + ':'):
+            m.add_violation(v['sig'], v['what'] + ' (under valgrind)', v.get('replay'), None, v.get('count', 1))
